@@ -98,6 +98,7 @@ type Expr struct {
 	Dist  bool       `json:"dist"`            // agg DISTINCT
 	Kind  string     `json:"kind,omitempty"`  // subq
 	Q     *Query     `json:"q,omitempty"`     // subq
+	Raw   string     `json:"raw,omitempty"`   // raw: SQL template with %s per argument (opaque to the specification)
 }
 
 // Query is a select or a set operation.
@@ -168,6 +169,9 @@ func Join(jt string, l, r *From, on *Expr) *From {
 }
 func Derived(q *Query) *From { return &From{K: "derived", Q: q} }
 
+// CTE references a common table expression whose body is q (rendered in a WITH clause).
+func CTE(q *Query) *From { return &From{K: "cte", Q: q} }
+
 func Select(from *From, where *Expr, proj ...*Expr) *Query {
 	if where == nil {
 		where = True()
@@ -195,10 +199,39 @@ func (f *From) Width() int {
 		return f.W
 	case "join":
 		return f.L.Width() + f.R.Width()
-	case "derived":
+	case "derived", "cte":
 		return f.Q.Width()
 	case "dual":
 		return 0
 	}
 	panic("bad from")
+}
+
+// RawExpr is an expression the specification does not interpret: tmpl has one %s per argument.
+func RawExpr(tmpl string, a ...*Expr) *Expr { return &Expr{K: "raw", Raw: tmpl, A: a} }
+
+// HasRaw reports whether e contains an uninterpreted node.
+func HasRaw(e *Expr) bool {
+	if e == nil {
+		return false
+	}
+	if e.K == "raw" {
+		return true
+	}
+	for _, a := range e.A {
+		if HasRaw(a) {
+			return true
+		}
+	}
+	for _, a := range e.List {
+		if HasRaw(a) {
+			return true
+		}
+	}
+	for _, w := range e.Whens {
+		if HasRaw(w[0]) || HasRaw(w[1]) {
+			return true
+		}
+	}
+	return HasRaw(e.E) || HasRaw(e.Arg) || HasRaw(e.Els)
 }
